@@ -1,0 +1,28 @@
+//go:build verif
+
+package housekeeping
+
+// Contracts for housekeeping (property C43), second part: what is removed is
+// a direct child of the data subdirectory. The name joined onto the
+// subdirectory path is the name of a listed entry, hence a single path
+// component that is neither "." nor ".." (validname; from the contract of
+// filesystem.DirectoryContentsByPath), so the removed path cannot name the
+// subdirectory itself, its parent, or anything reached through a separator in
+// the name. (The invariants quantify with the index shifted by one: the form
+// the solvers can instantiate at the element being visited, index
+// rangeindex+1.) Comment-only file, read by govc.
+
+//@ func housekeepAgents
+//@   at call os.RemoveAll assert[child] validname(agentVersion)
+//@   loop 1 invariant rangeindex < len(agentDirectoryContents)
+//@   loop 1 invariant[listed] forall k in -1..len(agentDirectoryContents)-1 :: agentDirectoryContents[k+1] != nil && validname(dename(agentDirectoryContents[k+1]))
+
+//@ func housekeepCaches
+//@   at call os.Remove assert[child] validname(cacheName)
+//@   loop 1 invariant rangeindex < len(cachesDirectoryContents)
+//@   loop 1 invariant[listed] forall k in -1..len(cachesDirectoryContents)-1 :: cachesDirectoryContents[k+1] != nil && validname(dename(cachesDirectoryContents[k+1]))
+
+//@ func housekeepStaging
+//@   at call os.RemoveAll assert[child] validname(stagingRootName)
+//@   loop 1 invariant rangeindex < len(stagingDirectoryContents)
+//@   loop 1 invariant[listed] forall k in -1..len(stagingDirectoryContents)-1 :: stagingDirectoryContents[k+1] != nil && validname(dename(stagingDirectoryContents[k+1]))
